@@ -358,6 +358,16 @@ func literalSubstringOfPath(c *Ctx, v ssa.Value, depth int) bool {
 	if depth == 0 || v == nil {
 		return false
 	}
+	// a part handed back in a helper's result struct (`parts, ok := splitProviderPath(path)` … `parts.rawSegment`): every
+	// value the helper stores into that field
+	if alts := helperStructField(c, v); len(alts) > 0 {
+		for _, a := range alts {
+			if !literalSubstringOfPath(c, a, depth-1) {
+				return false
+			}
+		}
+		return true
+	}
 	switch x := v.(type) {
 	case *ssa.Const:
 		return true
@@ -377,7 +387,22 @@ func literalSubstringOfPath(c *Ctx, v ssa.Value, depth int) bool {
 		}
 		return true
 	case *ssa.Parameter:
-		return x.Type().String() == "string" && (acceptedParams[x] || strings.Contains(strings.ToLower(x.Name()), "path"))
+		if x.Type().String() != "string" {
+			return false
+		}
+		if acceptedParams[x] || strings.Contains(strings.ToLower(x.Name()), "path") {
+			return true
+		}
+		// the parameter of a helper whose calls were followed: what every such call handed in
+		if bs := paramBindings[x]; len(bs) > 0 {
+			for _, b := range bs {
+				if b == ssa.Value(x) || !literalSubstringOfPath(c, b, depth-1) {
+					return false
+				}
+			}
+			return true
+		}
+		return false
 	case *ssa.Extract:
 		// before/after of strings.Cut, the remainder of strings.CutPrefix/CutSuffix: substrings of the first operand
 		if call, ok := x.Tuple.(*ssa.Call); ok {
